@@ -22,6 +22,20 @@ def carrier(n):
         if k in ("CXXConstructExpr", "CXXTemporaryObjectExpr") and len(n.get("c", [])) == 1:
             n = strip(n["c"][0])
             continue
+        if k == "CXXMemberCallExpr" and (callee(n) or "").endswith("::data") and (callee(n) or "").startswith("std::vector<"):
+            # v.data(): the raw view of the same container
+            from .facts import call_object
+            n = strip(call_object(n))
+            continue
+        if k == "ConditionalOperator":
+            # (v.empty()) ? nullptr : v.data()  -- the non-null alternative carries the value
+            alts = [strip(x) for x in n["c"][1:3]]
+            nonnull = [a for a in alts if a is not None and a.get("k") not in ("CXXNullPtrLiteralExpr", "GNUNullExpr", "IntegerLiteral") and
+                       not (a.get("k") == "ImplicitCastExpr" and a.get("cast") == "NullToPointer")]
+            if len(nonnull) == 1:
+                n = nonnull[0]
+                continue
+            return None
         return None
     return None
 
